@@ -1,4 +1,5 @@
 import PRV.Model.BuyerCheck
+import PRV.Model.WorkerBook
 import Mathlib.Tactic.Linarith
 import Mathlib.Tactic.SplitIfs
 import Mathlib.Tactic.Push
@@ -170,6 +171,153 @@ theorem tx_count_le_rounds (reason : Nat) (rounds : List (Bool × Bool)) :
     obtain ⟨avail, ok⟩ := r
     cases avail <;> cases ok <;> simp [closeLoop] <;> omega
 
+
+/-! ### the share record a purchase reads its "last share" from (`GlobalHashrate`) -/
+
+section book
+open PRV.Model.WorkerBook
+
+/-- at the start of a purchase the watcher deletes the record of its contract and creates a fresh one — in that order, and
+nowhere else -/
+theorem source_record_prepared : PRV.Gen.C10.watcherStartCalls = ["Reset", "Initialize"] ∧
+    PRV.Gen.C10.recordWriters = ["run:Reset", "run:Initialize"] := by decide
+
+theorem load_cons (e : String × Rec) (rest : Book) (w : String) :
+    load (e :: rest) w = if e.1 = w then some e.2 else load rest w := by
+  unfold load
+  by_cases h : e.1 = w <;> simp [List.find?, h]
+
+theorem reset_cons (e : String × Rec) (rest : Book) (id : String) :
+    reset (e :: rest) id = if e.1 = id then reset rest id else e :: reset rest id := by
+  unfold reset
+  by_cases h : e.1 = id <;> simp [List.filter, h]
+
+theorem load_reset_self (b : Book) (id : String) : load (reset b id) id = none := by
+  induction b with
+  | nil => rfl
+  | cons e rest ih =>
+    rw [reset_cons]
+    by_cases h : e.1 = id
+    · simpa [h] using ih
+    · simp only [h, if_false]; rw [load_cons]; simpa [h] using ih
+
+theorem load_reset_other (b : Book) (id w : String) (h : w ≠ id) : load (reset b id) w = load b w := by
+  induction b with
+  | nil => rfl
+  | cons e rest ih =>
+    rw [reset_cons, load_cons]
+    by_cases he : e.1 = id
+    · have hw : ¬ id = w := fun x => h x.symm
+      simpa [he, hw] using ih
+    · simp only [he, if_false]; rw [load_cons]
+      by_cases hw : e.1 = w <;> simp [hw, ih]
+
+theorem load_append (b : Book) (id w : String) (r : Rec) :
+    load (b ++ [(id, r)]) w = match load b w with | some x => some x | none => if id = w then some r else none := by
+  induction b with
+  | nil => by_cases h : id = w <;> simp [load, List.find?, h]
+  | cons e rest ih =>
+    rw [List.cons_append, load_cons, load_cons]
+    by_cases he : e.1 = w
+    · simp [he]
+    · simpa [he] using ih
+
+/-- **a purchase starts from a clean record, whatever happened to it before** (shares of an earlier purchase, late shares
+after that purchase's watcher had gone, other contracts): no last share, no work -/
+theorem fresh_purchase_starts_clean (b : Book) (id : String) :
+    load (startPurchase b id) id = some {} ∧ lastSubmit (startPurchase b id) id = none ∧
+    totalWork (startPurchase b id) id = some 0 := by
+  have h0 := load_reset_self b id
+  have h1 : load (startPurchase b id) id = some {} := by
+    unfold startPurchase initRec
+    simp only [h0, Option.isSome_none, Bool.false_eq_true, if_false]
+    rw [load_append, h0]; simp
+  refine ⟨h1, ?_, ?_⟩
+  · simp [lastSubmit, h1]
+  · simp [totalWork, h1]
+
+/-- so the silence of a new purchase is measured from its own start -/
+theorem fresh_purchase_reference (b : Book) (id : String) (startedAt : Int) :
+    reference (startPurchase b id) id startedAt = startedAt := by
+  simp [reference, (fresh_purchase_starts_clean b id).2.1]
+
+theorem load_map_self (b : Book) (id : String) (f : Rec → Rec) (r : Rec) (h : load b id = some r) :
+    load (b.map fun e => if e.1 = id then (e.1, f e.2) else e) id = some (f r) := by
+  induction b with
+  | nil => simp [load] at h
+  | cons e rest ih =>
+    rw [load_cons] at h
+    rw [List.map_cons, load_cons]
+    by_cases he : e.1 = id
+    · simp only [he, if_true, Option.some.injEq] at h ⊢
+      simp [h]
+    · simp only [he, if_false] at h ⊢
+      exact ih h
+
+theorem initRec_load (b : Book) (id : String) : ∃ r, load (initRec b id) id = some r := by
+  unfold initRec
+  cases h : load b id with
+  | none => exact ⟨{}, by simp only [Option.isSome_none, Bool.false_eq_true, if_false]; rw [load_append, h]; simp⟩
+  | some r => exact ⟨r, by simp [h]⟩
+
+/-- after a share the record's last-share instant is that share's -/
+theorem lastSubmit_onSubmit (b : Book) (id : String) (diff now : Int) (hnow : now ≠ 0) :
+    lastSubmit (onSubmit b id diff now) id = some now := by
+  obtain ⟨r, hr⟩ := initRec_load b id
+  have := load_map_self (initRec b id) id (fun x => { last := now, work := x.work + diff, shares := x.shares + 1 }) r hr
+  unfold onSubmit lastSubmit
+  rw [this]; simp [hnow]
+
+/-- **the instant the silence is measured from is the start of this purchase or one of its own shares**: for every record
+left behind by earlier history and every sequence of shares of this purchase, it is the last of them, or the start when
+there was none — a share-timeout verdict therefore needs a silence longer than the timeout *within the purchase* -/
+theorem purchase_reference (b : Book) (id : String) (startedAt : Int) (shares : List (Int × Int))
+    (hpos : ∀ s ∈ shares, s.2 ≠ 0) :
+    reference (submits (startPurchase b id) id shares) id startedAt = ((shares.getLast?).map (·.2)).getD startedAt := by
+  suffices ∀ (b0 : Book) (d : Int), reference b0 id startedAt = d →
+      reference (submits b0 id shares) id startedAt = ((shares.getLast?).map (·.2)).getD d from
+    this _ _ (fresh_purchase_reference b id startedAt)
+  induction shares with
+  | nil => intro b0 d h; simpa [submits] using h
+  | cons s rest ih =>
+    intro b0 d _
+    obtain ⟨diff, now⟩ := s
+    have hnow : now ≠ 0 := hpos (diff, now) List.mem_cons_self
+    have h1 : reference (onSubmit b0 id diff now) id startedAt = now := by
+      simp [reference, lastSubmit_onSubmit b0 id diff now hnow]
+    have := ih (fun x hx => hpos x (List.mem_cons_of_mem _ hx)) (onSubmit b0 id diff now) now h1
+    simp only [submits]
+    rw [this]
+    cases rest with
+    | nil => simp
+    | cons r rs =>
+      rw [List.getLast?_cons_cons]
+      cases hl : (r :: rs).getLast? with
+      | none => simp at hl
+      | some x => simp
+
+/-- without the `Reset` a record left behind survives `Initialize` (it is a `LoadOrStore`): a share that arrived after the
+previous purchase's watcher had gone would date the new purchase's silence -/
+theorem stale_record_survives_without_reset :
+    ∃ b : Book, lastSubmit (initRec b "c") "c" = some 5 ∧ lastSubmit (startPurchase b "c") "c" = none :=
+  ⟨[("c", { last := 5, work := 1, shares := 1 })], by decide, by decide⟩
+
+/-- other contracts' records are not touched by the start of a purchase -/
+theorem other_records_untouched (b : Book) (id w : String) (h : w ≠ id) : load (startPurchase b id) w = load b w := by
+  have hr := load_reset_other b id w h
+  unfold startPurchase initRec
+  split
+  · exact hr
+  · rw [load_append, hr]
+    cases load b w with
+    | none => have hw : ¬ id = w := fun x => h x.symm
+              simp [hw]
+    | some x => rfl
+
+-- non-vacuity: a record with history, a purchase with two shares
+example : reference (submits (startPurchase [("c", { last := 5, work := 9, shares := 2 })] "c") "c" [(1, 100), (1, 130)]) "c" 90 = 130 := by decide
+
+end book
 
 /-! ### non-vacuity -/
 example : getMaxGlobalError (10 * 60000000000) (5 / 100) (20 * 60000000000) skipPeriod = 4 / 5 := by
